@@ -441,10 +441,12 @@ def r11(ctx: Ctx, rid: str = "C10.R11") -> None:
     # ... and nothing TEXTUAL decides which candidate is the latest: no `<` / `>` / max / min / sorted over file names, regex
     # groups or tuples that start with one ('v9-...' > 'v10-...')
     for m in sorted((x for x in package_functions(ctx, ["metadata_manager"]) if x.parent is None), key=lambda x: x.qname):
-        if "_METADATA_FILE_RE" not in norm_text(m.node)[:100000] and not any(
-                isinstance(x, ast.Name) and x.id == "_METADATA_FILE_RE" for x in ast.walk(m.node)):
-            continue
         g = ctx.cfg(m)
+        if "_METADATA_FILE_RE" not in norm_text(m.node)[:100000] and not any(
+                isinstance(x, ast.Name) and x.id == "_METADATA_FILE_RE" for x in ast.walk(m.node)) and not any(
+                n_.ast is not None and n_.kind in ("stmt", "call", "branch") and any(isinstance(x, ast.Name) and x.id == "_METADATA_FILE_RE" for x in ast.walk(n_.ast))
+                for n_ in g.nodes):  # (a helper analysed in place may hold the match)
+            continue
         rd = ctx.rd(m)
 
         def is_text(e: Optional[ast.AST], at: int, depth: int = 0) -> bool:
@@ -485,9 +487,11 @@ def r11(ctx: Ctx, rid: str = "C10.R11") -> None:
                             # `for version, name in candidates:` over a local list of tuples built in this function: the
                             # element's kind is the kind of what was appended
                             idx = next((i for i, t in enumerate(tg.elts) if isinstance(t, ast.Name) and t.id == e.id), None)
-                            rows = [x.args[0] for x in ast.walk(m.node) if isinstance(x, ast.Call) and isinstance(x.func, ast.Attribute)
-                                    and x.func.attr == "append" and isinstance(x.func.value, ast.Name) and x.func.value.id == it.id
-                                    and len(x.args) == 1]
+                            rows = [x.args[0] for nn_ in g.nodes if nn_.ast is not None and nn_.kind in ("stmt", "call") for x in ast.walk(nn_.ast)
+                                    if isinstance(x, ast.Call) and isinstance(x.func, ast.Attribute)
+                                    and x.func.attr == "append" and isinstance(x.func.value, ast.Name)
+                                    and re.sub(r"__i\d+$", "", x.func.value.id) == re.sub(r"__i\d+$", "", it.id) and len(x.args) == 1]
+                            rows = list({id(r_): r_ for r_ in rows}.values())
                             rows += [x.value.elt for x in ast.walk(m.node) if isinstance(x, ast.Assign) and len(x.targets) == 1
                                      and isinstance(x.targets[0], ast.Name) and x.targets[0].id == it.id
                                      and isinstance(x.value, (ast.ListComp, ast.GeneratorExp))]
@@ -500,6 +504,10 @@ def r11(ctx: Ctx, rid: str = "C10.R11") -> None:
                     if isinstance(dn.ast, ast.Assign) and len(dn.ast.targets) == 1 and isinstance(dn.ast.targets[0], ast.Name) \
                             and is_text(dn.ast.value, d, depth + 1):
                         return True
+                    if isinstance(dn.ast, ast.Assign) and len(dn.ast.targets) == 1 and isinstance(dn.ast.targets[0], (ast.Tuple, ast.List)) \
+                            and isinstance(dn.ast.value, ast.Call) and isinstance(dn.ast.value.func, ast.Attribute) \
+                            and dn.ast.value.func.attr in ("rpartition", "partition", "rsplit", "split", "splitext"):
+                        return True  # `parent, _, basename = path.rpartition("/")`: pieces of a path
                     if isinstance(dn.ast, ast.For):
                         return True
                 return False
@@ -539,6 +547,75 @@ def r11(ctx: Ctx, rid: str = "C10.R11") -> None:
                                         and c.ast.func.attr == "append" and isinstance(c.ast.func.value, ast.Name) and c.ast.func.value.id == a0.id and c.ast.args]
                                 if any(is_text(c.ast.args[0], c.id) for c in apps):
                                     bad.append((n, norm_text(x)[:60]))
+        # a tie between files of ONE version is broken by modification time, never by the (random) file name: in every
+        # max / min / sorted over candidate tuples / records, no text component is compared before the mtime component
+        for n in g.nodes:
+            if n.ast is None or n.id not in g.reachable() or n.kind not in ("stmt", "return", "branch"):
+                continue
+            for x in ast.walk(n.ast):
+                if not (isinstance(x, ast.Call) and isinstance(x.func, ast.Name) and x.func.id in ("max", "min", "sorted") and x.args
+                        and isinstance(x.args[0], ast.Name)):
+                    continue
+                lst = x.args[0].id
+                rows = []
+                for c in g.calls():
+                    a = c.ast
+                    if isinstance(a, ast.Call) and isinstance(a.func, ast.Attribute) and a.func.attr == "append" and isinstance(a.func.value, ast.Name) \
+                            and a.func.value.id == lst and a.args:
+                        for src, sat in resolve_value(ctx, m, a.args[0], c.id):
+                            if isinstance(src, ast.Tuple):
+                                rows.append((list(src.elts), sat))
+                            elif isinstance(src, ast.Call) and not src.keywords and len(src.args) >= 2 and (dotted(src.func) or "")[:1] in "_ABCDEFGHIJKLMNOPQRSTUVWXYZ":
+                                rows.append((list(src.args), sat))  # a record constructed positionally: fields compare in this order
+                for d_ in g.nodes:
+                    if d_.kind == "stmt" and isinstance(d_.ast, ast.Assign) and len(d_.ast.targets) == 1 and isinstance(d_.ast.targets[0], ast.Name) \
+                            and d_.ast.targets[0].id == lst and isinstance(d_.ast.value, (ast.ListComp, ast.GeneratorExp)):
+                        el = d_.ast.value.elt
+                        if isinstance(el, ast.Tuple):
+                            rows.append((list(el.elts), d_.id))
+                        elif isinstance(el, ast.Call) and not el.keywords and len(el.args) >= 2 and (dotted(el.func) or "")[:1] in "_ABCDEFGHIJKLMNOPQRSTUVWXYZ":
+                            rows.append((list(el.args), d_.id))
+                if not rows:
+                    continue
+                keyf = next((k.value for k in x.keywords if k.arg == "key"), None)
+                if isinstance(keyf, ast.Name) and keyf.id in m.module.consts:
+                    keyf = m.module.consts[keyf.id]
+                pos = None
+                if keyf is None:
+                    pos = list(range(min(len(r_) for r_, _s in rows)))
+                elif isinstance(keyf, ast.Call) and (dotted(keyf.func) or "").split(".")[-1] == "itemgetter" \
+                        and all(isinstance(a_, ast.Constant) and isinstance(a_.value, int) for a_ in keyf.args):
+                    pos = [a_.value for a_ in keyf.args]  # type: ignore[union-attr]
+                if pos is None:
+                    continue
+                def _comp_text(e_: ast.AST) -> bool:
+                    """a comprehension variable unpacked from a local list of tuples: the kind of what was appended there"""
+                    if not isinstance(e_, ast.Name):
+                        return False
+                    for comp in [y for y in ast.walk(m.node) if isinstance(y, ast.comprehension)]:
+                        tg = comp.target
+                        if isinstance(tg, (ast.Tuple, ast.List)) and isinstance(comp.iter, ast.Name):
+                            idx = next((i for i, t in enumerate(tg.elts) if isinstance(t, ast.Name) and t.id == e_.id), None)
+                            if idx is None:
+                                continue
+                            for c2 in g.calls():
+                                a2 = c2.ast
+                                if isinstance(a2, ast.Call) and isinstance(a2.func, ast.Attribute) and a2.func.attr == "append" \
+                                        and isinstance(a2.func.value, ast.Name) and re.sub(r"__i\d+$", "", a2.func.value.id) == comp.iter.id and a2.args \
+                                        and isinstance(a2.args[0], ast.Tuple) and idx < len(a2.args[0].elts) and is_text(a2.args[0].elts[idx], c2.id):
+                                    return True
+                    return False
+
+                for elts, sat in rows:
+                    kinds = []
+                    for i_ in pos:
+                        if i_ >= len(elts):
+                            continue
+                        e_ = elts[i_]
+                        is_mt = "mtime" in norm_text(e_).lower() or "modified" in norm_text(e_).lower()
+                        kinds.append("mtime" if is_mt else ("text" if (is_text(e_, sat) or _comp_text(e_)) else "num"))
+                    if "text" in kinds and ("mtime" not in kinds or kinds.index("text") < kinds.index("mtime")):
+                        bad.append((n, norm_text(x)[:60] + " [compares " + "/".join(kinds) + "]"))
         seen_txt = set()
         for n, txt in bad:
             if txt in seen_txt:
